@@ -1,7 +1,7 @@
 #!/bin/sh
 # usage: try_mutant.sh <patch.diff> [property|all]  -- applies the patch to a scratch worktree of /repo HEAD and runs the checker on it
 P="$1"; PROP="${2:-all}"
-WT=/tmp/mutcheck; VD=/tmp/mutcheck-verif
+WT=${WT:-/tmp/mutcheck}; VD=${VD:-/tmp/mutcheck-verif}
 [ -d $WT ] || git -C /repo worktree add --detach $WT HEAD >/dev/null 2>&1
 git -C $WT checkout -q --detach $(git -C /repo rev-parse HEAD) 2>/dev/null; git -C $WT checkout -q -- . ; git -C $WT clean -fdq
 mkdir -p $VD; cp /verif/known_findings.json $VD/
